@@ -80,6 +80,15 @@ impl Rng {
     }
 }
 
+/// The first `n` bytes of `s`, cut back to a character boundary.
+pub fn prefix(s: &str, n: usize) -> &str {
+    let mut end = n.min(s.len());
+    while !s.is_char_boundary(end) {
+        end -= 1;
+    }
+    &s[..end]
+}
+
 /// FNV-1a, for counting distinct abstract cases.
 pub fn fnv(data: &[u8]) -> u64 {
     let mut h: u64 = 0xcbf29ce484222325;
